@@ -39,6 +39,7 @@ var badReqHdrs = []string{"X Foo", "", "Cookie", "Sec-Foo", "proxy-x", "Host", "
 	"X-A,X-B", "X-A, Cookie", "Content-Type;X-B", "X-\u212Aey", "X-Re\u017fult", "X-\u00c9tat", "x-\u212a"}
 var badResHdrs = []string{"Set-Cookie", "set-cookie2", "Origin", "a b", "", "Access-Control-Request-Method",
 	"Access-Control-Allow-Methods", "Access-Control-Max-Age", "Access-Control-Allow-Private-Network", "Access-Control-Request-Private-Network", "X-A,X-B", "X-A, Set-Cookie", "X-\u212Aey", "X-Re\u017fult"}
+
 // out of bounds - among them values that become legal again when truncated to 8, 16 or 32 bits
 var badMaxAge = []int{-2, 86401, -100, 1 << 30, 1<<16 + 86400, -1 - 1<<16, 1<<32 + 5, 1<<32 - 1, -1 << 31, 1<<31 + 600}
 var badStatus = []int{199, 300, 100, 404, -1, 1, 204 + 1<<8, 200 + 1<<16, 299 + 1<<16, 204 - 1<<16, 204 + 1<<32, 200 - 1<<8}
